@@ -2,6 +2,8 @@
 C20 — non-executing commands are deterministic.
 -/
 import Just.Model.Determinism
+import Just.Lemmas.Table
+import Just.Lemmas.Define
 namespace Just.Props.C20
 open Just.Determinism
 
@@ -35,5 +37,67 @@ example : dumpOrdered Nat.ble ⟨[], [3, 1, 2]⟩ = dumpOrdered Nat.ble ⟨[], [
     (fun a b => by simp only [Nat.ble_eq, Bool.or_eq_true, decide_eq_true_eq]; omega)
     (fun a b h1 h2 => by simp only [Nat.ble_eq] at *; omega)
     [] _ _ (by decide)
+
+/-! ### name-keyed tables (`Table` = `BTreeMap`): recipes, aliases, assignments, modules, settings -/
+
+/-- **what a table holds and shows is a function of the SET of definitions**: in whatever order
+the definitions are met (source order, the analyzer's stack order over imported files, hash order
+of any container they passed through), the table — and so every listing and the dump, which
+iterate it — is the same. -/
+theorem table_independent_of_definition_order {α : Type} (σ₁ σ₂ : List (String × α))
+    (hnd : (σ₁.map Prod.fst).Nodup) (h : σ₁.Perm σ₂) : build σ₁ = build σ₂ := by
+  unfold build
+  have hnd2 : (σ₂.map Prod.fst).Nodup := (h.map Prod.fst).nodup_iff.mp hnd
+  apply sorted_perm_eq
+  · exact foldl_sorted σ₁ [] (by simp [Sorted])
+  · exact foldl_sorted σ₂ [] (by simp [Sorted])
+  · have p1 := foldl_perm σ₁ [] (by simpa using hnd)
+    have p2 := foldl_perm σ₂ [] (by simpa using hnd2)
+    simp only [List.append_nil] at p1 p2
+    exact (p1.trans h).trans p2.symm
+
+/-- the order shown is the key order, and nothing is lost or invented -/
+theorem table_sorted_and_complete {α : Type} (σ : List (String × α)) (hnd : (σ.map Prod.fst).Nodup) :
+    (keysOf (build σ)).Pairwise (· < ·) ∧ (build σ).Perm σ := by
+  constructor
+  · have := foldl_sorted σ [] (by simp [Sorted])
+    unfold keysOf build
+    rw [List.pairwise_map]
+    exact this
+  · have := foldl_perm σ [] (by simpa using hnd)
+    simpa [build] using this
+
+open Just.Define in
+/-- **the duplicate-definition verdict does not depend on the order either** (the analyzer keeps
+its `definitions` in a `HashMap`, used for look-ups only): permuting the definitions and the
+assignments of a module changes neither acceptance nor rejection. -/
+theorem duplicate_verdict_independent_of_order (allowRecipes allowVars : Bool)
+    (items₁ items₂ : List Def) (vars₁ vars₂ : List String)
+    (hi : items₁.Perm items₂) (hv : vars₁.Perm vars₂) :
+    accepts allowRecipes allowVars items₁ vars₁ = accepts allowRecipes allowVars items₂ vars₂ := by
+  have key : ∀ (it : List Def) (vs : List String), accepts allowRecipes allowVars it vs = true ↔
+      (it.Pairwise (Compatible allowRecipes) ∧ (allowVars = true ∨ vs.Nodup)) := by
+    intro it vs
+    unfold accepts
+    rw [Bool.and_eq_true, defineAll_isSome]
+    have hp : (order it).Pairwise (Compatible allowRecipes) ↔ it.Pairwise (Compatible allowRecipes) :=
+      (order_perm it).pairwise_iff (fun h => Compatible.symm h)
+    rw [hp]
+    have ht : TableOk allowRecipes [] (order it) := by intro d _ k0 hk; simp [List.lookup] at hk
+    have hvv : (allowVars || !hasDup vs) = true ↔ (allowVars = true ∨ vs.Nodup) := by
+      rw [Bool.or_eq_true, ← hasDup_iff]
+      cases hasDup vs <;> simp
+    rw [hvv]
+    constructor
+    · intro ⟨⟨h1, _⟩, h2⟩; exact ⟨h1, h2⟩
+    · intro ⟨h1, h2⟩; exact ⟨⟨h1, ht⟩, h2⟩
+  have hiff : accepts allowRecipes allowVars items₁ vars₁ = true ↔ accepts allowRecipes allowVars items₂ vars₂ = true := by
+    rw [key, key, hi.pairwise_iff (fun h => Compatible.symm h), hv.nodup_iff]
+  cases h1 : accepts allowRecipes allowVars items₁ vars₁ <;> cases h2 : accepts allowRecipes allowVars items₂ vars₂ <;> simp_all
+
+/-- non-vacuity: three recipes met in two different orders give one table -/
+example : keysOf (build [("test", 1), ("build", 2), ("lint", 3)]) = ["build", "lint", "test"] ∧
+    build [("test", 1), ("build", 2), ("lint", 3)] = build [("lint", 3), ("test", 1), ("build", 2)] := by
+  decide
 
 end Just.Props.C20
